@@ -11,24 +11,26 @@ import (
 func c22s(i int) string { return string(rune('0' + i)) }
 
 // c22ID: entity ids are Raft log indexes. From the empty state ids 1..3 can exist; after the
-// populated prefix (param populated=1) ids 1..6 exist, 9 does not.
+// populated prefix (param populated=1) ids 1..8 exist, 11 does not.
 func c22ID(name string) int64 {
 	if zz.ParamInt("populated", 0) == 1 {
-		return zz.OneOfInt64(name, 0, 1, 2, 3, 4, 5, 6, 9)
+		return zz.OneOfInt64(name, 0, 1, 2, 3, 4, 5, 6, 7, 8, 11)
 	}
 	return zz.OneOfInt64(name, 0, 1, 2, 3)
 }
 
 func c22TokenID(name string) int64 {
 	if zz.ParamInt("populated", 0) == 1 {
-		return zz.OneOfInt64(name, 0, 1, 9)
+		return zz.OneOfInt64(name, 0, 1, 7, 11)
 	}
 	return zz.OneOfInt64(name, 0, 1, 2)
 }
 
 // c22Populate applies a fixed, valid history: token t1 (id 1), organization x (2), team x
 // under it (3), a role of that team (4), a measurement permission of that role (5) and the
-// membership of token 1 in team 3 (6). The symbolic commands then start at index 7.
+// membership of token 1 in team 3 (6), a second token t2 (7) and its membership in the same
+// team (8): one team with two members, so removing one membership must leave the other's
+// index entries alone. The symbolic commands then start at index 9.
 func c22Populate(f *ClusterFSM) {
 	ok := func(r interface{}) { zz.Assert(r == nil, "the fixed populating history was rejected") }
 	ok(c2xApply(f, 1, CommandCreateToken, CreateTokenPayload{Token: TokenEntry{Name: "t1", Permissions: "read", TokenHash: "h1", TokenPrefix: "p1", CreatedAtUnixNano: 7, Enabled: true}}))
@@ -37,6 +39,8 @@ func c22Populate(f *ClusterFSM) {
 	ok(c2xApply(f, 4, CommandCreateRole, CreateRolePayload{Role: RoleEntry{TeamID: 3, DatabasePattern: "*", Permissions: "read", CreatedAtUnixNano: 7}}))
 	ok(c2xApply(f, 5, CommandCreateMeasurementPermission, CreateMeasurementPermissionPayload{MeasurementPermission: MeasurementPermissionEntry{RoleID: 4, MeasurementPattern: "*", Permissions: "read", CreatedAtUnixNano: 7}}))
 	ok(c2xApply(f, 6, CommandAddTokenToTeam, AddTokenToTeamPayload{Membership: TokenMembershipEntry{TokenID: 1, TeamID: 3, CreatedAtUnixNano: 7}}))
+	ok(c2xApply(f, 7, CommandCreateToken, CreateTokenPayload{Token: TokenEntry{Name: "t2", Permissions: "read", TokenHash: "h7", TokenPrefix: "p7", CreatedAtUnixNano: 7, Enabled: true}}))
+	ok(c2xApply(f, 8, CommandAddTokenToTeam, AddTokenToTeamPayload{Membership: TokenMembershipEntry{TokenID: 7, TeamID: 3, CreatedAtUnixNano: 7}}))
 }
 
 // ---------------- token family ----------------
@@ -414,7 +418,7 @@ func VerifC22() {
 	base := uint64(0)
 	if zz.ParamInt("populated", 0) == 1 {
 		c22Populate(f)
-		base = 6
+		base = 8
 		c22IndexesAgree(f, "after the populating history")
 		c22ParentsExist(f, "after the populating history")
 	}
